@@ -23,6 +23,9 @@ EvSendKinds(e) == IF Lite(e) THEN e.sk
                   ELSE LET S == SelectSeq(e.out, LAMBDA x : x.k = "send") IN [i \in DOMAIN S |-> S[i].d.h.msg.k]
 EvSendDsts(e) == IF Lite(e) THEN e.sd
                  ELSE LET S == SelectSeq(e.out, LAMBDA x : x.k = "send") IN [i \in DOMAIN S |-> S[i].dst]
+\* number of members carried by each datagram sent (-1: not recorded)
+EvSendCounts(e) == IF Lite(e) THEN (IF "sm" \in DOMAIN e THEN e.sm ELSE [i \in DOMAIN e.sk |-> -1])
+                   ELSE LET S == SelectSeq(e.out, LAMBDA x : x.k = "send") IN [i \in DOMAIN S |-> Len(S[i].d.mem)]
 EvKind(e) == IF Lite(e) THEN e.k
              ELSE IF e.call = "data" THEN e.args.h.msg.k ELSE IF e.call = "timer" THEN e.args.k ELSE ""
 EvFrom(e) == IF Lite(e) THEN e.from ELSE IF e.call = "data" /\ e.args.hok THEN e.args.h.src ELSE NoId
@@ -46,7 +49,8 @@ GInit(hdr) ==
      lastJoin |-> 0, formed |-> FALSE,
      tFault |-> -1, failed |-> {}, listed |-> <<>>, downAt |-> <<>>, leaver |-> {},
      tDrop |-> -1, tHeal |-> -1, toldDown |-> {}, rejoined |-> {}, defunct |-> {}, activeAfter |-> {},
-     deliveries |-> 0, maxBurst |-> 0]
+     deliveries |-> 0, maxBurst |-> 0,
+     feedshort |-> FALSE]     \* some Feed listed fewer members than its sender had active ones (receiver excluded)
 
 Up(g) == {n \in DOMAIN g.status : g.status[n] = "up"}
 
@@ -63,7 +67,13 @@ GCall(g, e) ==
         din == EvDin(e)
         heard == (IF e.call = "data" /\ e.res = "Ok" /\ src # NoId THEN {src} ELSE {})
                  \cup (IF e.call = "data" /\ e.res = "Ok" THEN {din[i].id : i \in DOMAIN din} ELSE {})
+        after == IF EvSame(e) THEN g.view[x] ELSE EvState(e)
+        K == EvSendKinds(e)
+        short == \E i \in DOMAIN K :
+                    /\ K[i] = "Feed" /\ EvSendCounts(e)[i] >= 0
+                    /\ EvSendCounts(e)[i] < Cardinality(ActiveOf(after) \ {EvSendDsts(e)[i]})
     IN [g EXCEPT !.ids = (x :> EvId(e)) @@ @,
                  !.view = IF EvSame(e) THEN @ ELSE (x :> EvState(e)) @@ @,
-                 !.told = (x :> (@[x] \cup heard)) @@ @]
+                 !.told = (x :> (@[x] \cup heard)) @@ @,
+                 !.feedshort = @ \/ short]
 =============================================================================
